@@ -52,6 +52,7 @@ from nlopt import LD_SLSQP
 from nlopt import LN_BOBYQA
 from nlopt import LN_COBYLA
 from nlopt import LN_NEWUOA_BOUND
+from nlopt import ForcedStop
 from nlopt import RoundoffLimited
 from nlopt import opt
 from numpy import array
@@ -382,7 +383,10 @@ class Nlopt(BaseOptimizationLibrary):
         self.__add_constraints(nlopt_problem, **settings)
         try:
             nlopt_problem.optimize(x_0.real)
-        except (RoundoffLimited, RuntimeError) as err:
+        except (RoundoffLimited, RuntimeError, ForcedStop) as err:
+            # N.B. ForcedStop: a termination criterion raised in a callback forces
+            # NLopt to stop; NLopt raises ForcedStop when a later callback succeeded
+            # and the original exception was lost.
             LOGGER.exception(
                 "NLopt run failed: %s, %s",
                 str(err.args[0]),
